@@ -220,6 +220,11 @@ STATEFUL = [
     "<script>\nunclosed script\n\npara after script\n",
     "text &am\n\n<\n\n<img src=\"a.png\" alt=\"unterminated\n",
     "<div class=\"admonition note\">\n<p class=\"title\">T</p>\ninner *md* <b>\n</div>\n\n<img src=\"b.png\" class=\"c\" alt>\n",
+    # a per-file configuration (any front matter) in a document whose directive switches an extension on for its own body
+    "---\nmyst:\n  title_to_header: true\n---\n# FM\n\n```{figure-md}\n![alt](img.png)\n\nCaption\n```\n\n<img src=\"raw.png\">\n",
+    # the deprecated top-level spellings of two front-matter keys: each use is reported, in every document
+    "---\nsubstitutions:\n  key1: top-level value\nhtml_meta:\n  keywords: k\n---\n# Dep\n\n{{ key1 }}\n",
+    "---\nhtml_meta:\n  description: d\n---\npara\n",
 ]
 
 
@@ -233,6 +238,7 @@ OBSERVERS = [
     "~~strike~~ and www.e.org and (c) and - [ ] task\n\nTerm\n: def\n",                       # extensions enabled by another document's front matter
     "[c](x:obs) and <wiki:Obs> and [d](wiki:D){.own}\n",                                          # classes accumulated on a url scheme
     "<img src=\"o2.png\" alt=\"obs\">\n\n<div class=\"admonition tip\">\n<p>obs body</p>\n</div>\n\npara <img src=\"i.png\"> inline\n",  # HTML tokenizer state
+    "---\nsubstitutions:\n  key1: observer value\n---\n{{ key1 }}\n",                   # a warning owed to every document that uses the deprecated key
 ]
 
 
